@@ -58,6 +58,7 @@ def specs(
     where=False,
     own=False,
     dotted=False,
+    flags=False,
 ):
     n_pkgs = draw(st.integers(1, max_pkgs))
     n_algs = draw(st.integers(min_algs, max_algs))
@@ -172,6 +173,13 @@ def specs(
                     if here and draw(st.integers(0, 1)) == 0 else [])
             spec['own'].append(mine)
             placeholders[i] = [k for k in placeholders[i] if k not in mine]
+    if flags:
+        # a package may spell out that it is *not* to be ignored
+        spec['ignore_flag'] = [
+            draw(st.sampled_from([None, None, 'DAWGIE_IGNORE',
+                                  'dawgie_ignore' if style == 'legacy'
+                                  else 'DAWGIE_IGNORE']))
+            for _i in range(n_pkgs)]
     if dotted and draw(st.integers(0, 2)) == 0:
         # the base package may sit below another package (org.engine)
         spec['base_depth'] = 2
@@ -536,6 +544,9 @@ def sources(spec, base, viol=None):
                 ]
         kinds_here = sorted({a['kind'] for _i, a in mine})
         init = ['import datetime', 'import dawgie', 'import dawgie.base', '']
+        flag = (spec.get('ignore_flag') or [None] * len(spec['pkgs']))[pi]
+        if flag:
+            init += [f'{flag} = False', '']
         if spec['style'] == 'legacy':
             for kind in kinds_here:
                 cls = f'Bot_{kind}'
